@@ -291,7 +291,7 @@ mut('c06-unclosed-handler-indexes-empty', 'C06', 'reader.py',
     line, offset = clo(src.position)""",
     """    explanation = 'Instead got %s' % end if end else 'Reached end of file.'
     line, offset = clo(src.position)
-    last_break = clo.line_break_positions[-1] if end and len(str(end)) == 1 else 0""")
+    prev_break = clo.line_break_positions[line - 1] if src.position > 40 else 0""")
 mut('c06-tolerant-math-recurses', 'C06', 'reader.py',
     """    if not src.hasNext() or src.peek().category != expr.token_end:
         unclosed_env_handler(src, expr, src.peek())
@@ -461,7 +461,7 @@ mut('c09-read-arg-closes-brace-on-bracket', 'C09 C02', 'reader.py',
                 src.peek().category == TC.BracketEnd and len(content) > 3
                 and arg.token_end == TC.GroupEnd and mode == MODE_MATH):
             src.forward()""")
-mut('c09-third-bracket-group-not-read', 'C09 C02 C01', 'reader.py',
+mut('c09-third-bracket-group-not-read', 'C09', 'reader.py',
     """        args.append(read_arg(src, next(src), tolerance=tolerance, mode=mode))
         n_optional -= 1
     return n_optional""",
@@ -470,7 +470,7 @@ mut('c09-third-bracket-group-not-read', 'C09 C02 C01', 'reader.py',
         if n_optional == -3:
             break
     return n_optional""")
-mut('c09-tab-newline-detaches', 'C09 C16', 'tokens.py',
+mut('c09-tab-newline-detaches', 'C09', 'tokens.py',
     """    if text.hasNext() and text.peek().category == CC.EndOfLine:
         result += text.forward(1)
     while text.hasNext() and text.peek().category == CC.Spacer:""",
@@ -524,7 +524,7 @@ mut('c11-body-dollar-parsed', 'C11', 'reader.py',
     """            if expr.name in skip_envs and not (
                     src.hasNext() and src.peek().category == TC.DisplayMathSwitch):
                 read_skip_env(src, expr)""")
-mut('c11-skip-env-forward-count', 'C11 C01', 'reader.py',
+mut('c11-skip-env-forward-count', 'C11', 'reader.py',
     """        unclosed_env_handler(src, expr, src.peek((0, 6)))
     src.forward(5)
     expr.append(*contents)""",
